@@ -119,6 +119,14 @@ CHECKS = {
         'note': 'Same persistence model as C08.',
         'parts': [TracePart('durability', 'c09')],
     },
+    'C15': {
+        'level': 'fault_enumeration',
+        'engine': 'tracefs',
+        'technique': 'exhaustive single-fault injection (every occurrence of every file-system system call of every mutating operation x errnos) via ptrace; trace replay of read-only and failing calls in the FS model; exhaustive aux-data x operation product',
+        'text': 'Every system call of init/add/update/set-admin/remove is made to fail once with each applicable errno; an operation that reports failure must leave everything outside the work area byte-identical. Read-only and semantically failing calls are traced and must issue no mutating system call. Auxiliary data of every shape survives update / set-admin byte-for-byte, all other files untouched.',
+        'note': 'One fault per run; library level (the frontends only add authenticate calls, see C04).',
+        'parts': [TracePart('faults', 'c15_faults'), TracePart('readonly', 'c15_readonly'), GoBin('auxdata', 'harness/c15')],
+    },
     'C10': {
         'level': 'model_checking',
         'engine': 'mc',
